@@ -180,11 +180,26 @@ def seeded(ctx):
         d['reward'] = {'name': 'reduce_sum', 'parts': [{'name': 'living_reward', 'params': [-0.05]}]}
         d['actions'] = list(range(8))
         memo_descs.append(d)
-    for name, data, desc in jobs + [(f'random-{i}', None, d) for i, d in enumerate(rand_descs)] + [(f'memo-{i}', None, d) for i, d in enumerate(memo_descs)]:
+    # shortest-path shaping on layouts with walkable cells cut off from the exit (behind the locked door): the distance table is
+    # recomputed whenever the other environment's layouts have pushed it out of the function's cache
+    sp_descs = []
+    for _ in range(3 if ctx.tier == 'quick' else 20):
+        d = envs.rand_env(r)
+        d['reset'] = {'name': 'keydoor', 'shape': (r.randint(5, 7), r.randint(6, 8))}
+        d['reward'] = {'name': 'reduce_sum', 'parts': [{'name': 'getting_closer_shortest_path', 'params': [1.0, -1.0], 'ty': envs.TYN['Exit']}]}
+        d['trans'] = [0, 1, 4, 2]
+        d['actions'] = list(range(8))
+        d['term'] = {'name': 'reach_exit'}
+        sp_descs.append(d)
+    for name, data, desc in (jobs + [(f'random-{i}', None, d) for i, d in enumerate(rand_descs)] + [(f'memo-{i}', None, d) for i, d in enumerate(memo_descs)]
+                             + [(f'sp-{i}', None, d) for i, d in enumerate(sp_descs)]):
         def build():
             return factory_env_from_data(copy.deepcopy(data)) if data is not None else comp.build_env(desc)
         try:
             a, b, c = build(), build(), build()
+            if name.startswith('sp'):
+                # the third environment is a DIFFERENT one of the same shape (its tables hold other values)
+                c = comp.build_env(dict(desc, reset={'name': 'empty', 'shape': desc['reset']['shape'], 'random_agent': True, 'random_exit': True}))
         except Exception as e:  # noqa: BLE001
             ctx.count('random env rejected at construction', type(e).__name__)
             continue
@@ -219,6 +234,8 @@ def seeded(ctx):
                     disturb(r)
                 if r.random() < 0.4:
                     transcript_ops(c, [('reset', None)] + [('step', r.choice(desc['actions'])) for _ in range(r.randint(0, 3))] + [('obs', None)])
+                if name.startswith('sp') and r.random() < 0.5:
+                    transcript_ops(c, [x for _ in range(12) for x in (('reset', None), ('step', r.choice(desc['actions'])))])
                 tb.extend(transcript_ops(b, [op]))
             gvdebug.reset_gv_debug(None)
             ctx.count('seeded pair', name if data is not None else 'random')
